@@ -6,6 +6,7 @@ import (
 	"fmt"
 
 	"verif/props/proto"
+	"verif/simnet"
 )
 
 func gen(tier string) []proto.Item {
@@ -47,6 +48,39 @@ func gen(tier string) []proto.Item {
 					}
 					s.Inject = []proto.Inject{{OnTTL: t, AnswerTTL: t, Form: form, From: from, DelayUs: proto.DefaultDelayUs(t) + extra, Tag: "late-duplicate", Genuine: true}}
 					items = append(items, proto.Item{Scn: s, Class: fmt.Sprintf("%s/t%d-d%d/duplicate-with-larger-delay", v, cfg[0], cfg[1])})
+				}
+			}
+		}
+	}
+	items = append(items, ForwardReorder(tier, 500, 41)...)
+	return items
+}
+
+// ForwardReorder: SACK probes overtaking each other on the way to the target. Probes 5, 6, 7 reach the target in every
+// order; the target's scoreboard (and hence the SACK blocks of each duplicate ACK) follows the arrival order; the initial
+// sequence number is ordinary or places the 2^32 wrap at each of the three probes.
+func ForwardReorder(tier string, ipid, echo uint32) []proto.Item {
+	var items []proto.Item
+	inits := []uint32{0x2000, 0xfffffffa}
+	if tier == "thorough" {
+		inits = []uint32{0x2000, 0xfffffff8, 0xfffffff9, 0xfffffffa, 0xfffffffb}
+	}
+	perms := [][3]int{{0, 1, 2}, {0, 2, 1}, {1, 0, 2}, {1, 2, 0}, {2, 0, 1}, {2, 1, 0}}
+	for _, v := range proto.Variants {
+		if proto.Info(v).Kind != "sack" {
+			continue
+		}
+		for _, a := range inits {
+			for _, p := range perms {
+				for _, gap := range []int{15000, 150000} {
+					s := proto.Scn{Variant: v, First: 1, Last: 7, Dest: 5, IPIDBase: ipid, EchoBase: echo, TimeoutMs: 500, DelayMs: 10}
+					s.SynAck = &simnet.SynAckSpec{Enabled: true, ISN: 0x99, AckNum: a, SackPermitted: true}
+					s.Hops = map[int]proto.HopSpec{}
+					for k := 0; k < 3; k++ {
+						// probe 5+k is sent 10k ms after probe 5 and reaches the target at 40ms + rank*gap
+						s.Hops[5+k] = proto.HopSpec{ForwardDelayUs: 40000 + p[k]*gap - k*10000, DelayUs: 4000}
+					}
+					items = append(items, proto.Item{Scn: s, Class: fmt.Sprintf("%s/forward-reorder/init-%x", v, a)})
 				}
 			}
 		}
